@@ -46,8 +46,13 @@ def run(c, chk):
     nsites = sum(1 for n in sites for _ in c.deep_calls(fn, n))
     chk.floor('R4.x conversion call sites', nsites, 2)
     # a helper split off cfg_setopt() or off the path resolver belongs to that function (its calls are on the explored paths)
+    from . import c11 as _c11
+    try:
+        resolver = set(c.owners(_c11.step_loop(c, c.need('cfg_getopt_secidx'))[0].name))     # the path resolver converts an index qualifier, not a value
+    except report.Broken:
+        resolver = set()
     others = [(f.name, n) for f in c.confuse.funcs.values() for n in ('strtol', 'strtod', 'atoi', 'atol', 'atof', 'strtoul')
-              for _ in f.calls(n) if not (c.owners(f.name) <= {'cfg_setopt', 'cfg_getopt_secidx'})]
+              for _ in f.calls(n) if not (c.owners(f.name) <= ({'cfg_setopt', 'cfg_getopt_secidx'} | resolver))]
     for fname, n in others:
         chk.fail('R4.5', 'stray-conversion:%s:%s' % (fname, n), c.where(c.func(fname)), '%s() converts text with %s() outside the checked conversion arm' % (fname, n))
 
